@@ -471,9 +471,11 @@ def report_violations(prop_id, mod, seed, args, viols, t0, agg, pre, st=None):
     by_rule = {}
 
     def sig_of(v, spec, sc):
-        s0 = _signature(mod, spec, sc, v["rule"], v.get("op"))
-        if s0 == v["rule"]:
-            s0 = findings.generic_signature(spec, v["rule"], v.get("msg")) or s0
+        # the generic signatures look at the FAILURE TEXT as well as at the spec, so they go first; a property module's
+        # own signature of an un-importable world sees the spec only and must not claim somebody else's failure
+        s0 = findings.generic_signature(spec, v["rule"], v.get("msg"))
+        if s0 is None:
+            s0 = _signature(mod, spec, sc, v["rule"], v.get("op"))
         return s0
     for v in viols:
         # group by (rule, shape signature of THIS violation) so that a recorded finding can never hide a
